@@ -26,9 +26,23 @@ type InstCfg struct {
 	// instance and its answers thrown away: "" never | block | undo | all. Queries must not change
 	// later answers, and nothing they leave behind may go stale.
 	QueryQ string
+	// Rev: every block, undo and Verify(remember) hands this instance its targets and their hashes
+	// in descending instead of ascending position order (any matching order is accepted input).
+	Rev bool
+	// Junk: every block, undo and Verify(remember) hands this instance its proof with one trailing
+	// unused proof hash (an accepted encoding, C05).
+	Junk bool
 }
 
 func (c InstCfg) Name() string {
+	if c.Rev {
+		c.Rev = false
+		return c.Name() + "[descending targets]"
+	}
+	if c.Junk {
+		c.Junk = false
+		return c.Name() + "[trailing unused proof hash]"
+	}
 	if c.NoRT {
 		c.NoRT = false
 		return c.Name() + "[never serialized]"
@@ -275,7 +289,8 @@ func (f *HistFamily) apply(x *Exec, insts []*inst, md *histModel, op Op) bool {
 			name := in.cfg.Name()
 			var err error
 			if in.stump != nil {
-				_, err = x.StumpUpdate(in.stump, dh, adds, proof)
+				d, p := in.order(dh, proof)
+				_, err = x.StumpUpdate(in.stump, d, adds, p)
 			} else {
 				if in.m != nil && !in.cfg.Full {
 					// deletions must be cached before Modify on a partial forest
@@ -286,7 +301,8 @@ func (f *HistFamily) apply(x *Exec, insts []*inst, md *histModel, op Op) bool {
 						}
 					}
 					if need {
-						if e := x.VerifyAcc(name, in.acc, dh, proof, true); e != nil {
+						d, p := in.order(dh, proof)
+						if e := x.VerifyAcc(name, in.acc, d, p, true); e != nil {
 							x.Report(f.Or.Prop, "honest proof rejected by Verify(remember) on "+in.cfg.Class(), fmt.Sprintf("%s: %v", name, e))
 							in.broken = true
 							ok = false
@@ -296,7 +312,8 @@ func (f *HistFamily) apply(x *Exec, insts []*inst, md *histModel, op Op) bool {
 				}
 				base := md.s.N()
 				leaves := leavesFor(base, op.Adds, func(i int) bool { return in.remembers(base + i) })
-				err = x.Modify(name, in.acc, leaves, dh, proof)
+				d, p := in.order(dh, proof)
+				err = x.Modify(name, in.acc, leaves, d, p)
 			}
 			if err != nil {
 				x.Report(f.Or.Prop, "honest block rejected by "+in.cfg.Class(), fmt.Sprintf("%s: %v", name, err))
@@ -329,7 +346,8 @@ func (f *HistFamily) apply(x *Exec, insts []*inst, md *histModel, op Op) bool {
 				continue
 			}
 			name := in.cfg.Name()
-			if err := x.Undo(name, in.acc, uint64(fr.op.Adds), proof, dh, prevRoots); err != nil {
+			d, p := in.order(dh, proof)
+			if err := x.Undo(name, in.acc, uint64(fr.op.Adds), p, d, prevRoots); err != nil {
 				x.Report(f.Or.Prop, "Undo of the last block failed on "+in.cfg.Class(), fmt.Sprintf("%s: %v", name, err))
 				in.broken = true
 				ok = false
@@ -367,7 +385,8 @@ func (f *HistFamily) apply(x *Exec, insts []*inst, md *histModel, op Op) bool {
 				continue
 			}
 			name := in.cfg.Name()
-			if err := x.VerifyAcc(name, in.acc, hs, proof, true); err != nil {
+			d, p := in.order(hs, proof)
+			if err := x.VerifyAcc(name, in.acc, d, p, true); err != nil {
 				x.Report(f.Or.Prop, "honest proof rejected by Verify(remember) on "+in.cfg.Class(), fmt.Sprintf("%s: %v", name, err))
 				in.broken = true
 				ok = false
@@ -952,4 +971,22 @@ func queriedFamily(c *Ctx, or HistOracle) {
 	if !c.Expired() {
 		BFS(c, &HistFamily{Nmax: n, Insts: insts, Or: or, UndoBud: 2, PermLimit: 2}, 0)
 	}
+}
+
+// order returns the (hashes, proof) pair as this instance is to receive it (see InstCfg.Rev).
+func (in *inst) order(hs []Hash, proof u.Proof) ([]Hash, u.Proof) {
+	if in.cfg.Junk && len(proof.Targets) > 0 {
+		proof = u.Proof{Targets: proof.Targets, Proof: append(append([]Hash(nil), proof.Proof...), ref.FreshHash(9))}
+	}
+	if !in.cfg.Rev || len(hs) < 2 || len(hs) != len(proof.Targets) {
+		return hs, proof
+	}
+	n := len(hs)
+	rh := make([]Hash, n)
+	rt := make([]uint64, n)
+	for i := range hs {
+		rh[n-1-i] = hs[i]
+		rt[n-1-i] = proof.Targets[i]
+	}
+	return rh, u.Proof{Targets: rt, Proof: proof.Proof}
 }
